@@ -16,6 +16,10 @@ func init() {
 			{ID: "C19-R1", Doc: "guarded-by table respected on every path (lockset)", Run: c19r1},
 			{ID: "C19-R2", Doc: "manager-owned fields are not read from other goroutines", Run: c19r2},
 			{ID: "C19-R3", Doc: "once-per-machine RPCs only under their once.Map", Run: c19r3},
+			{ID: "C19-R4", Doc: "a guarded map/slice/pointer is not used through a local copy outside its lock", Run: c19r4},
+			{ID: "C19-R5", Doc: "locks are acquired in one global order (no cycle between lock classes)", Run: c19r5},
+			{ID: "C02-R4", Doc: "a completed task is located, then OK, then assigned; machine stop marks tasks lost atomically (shared)", Run: c02r4},
+			{ID: "C12-R1", Doc: "discard leaves no task parked in RUNNING (shared)", Run: c12r1},
 			{ID: "C03-R1", Doc: "single hand-off site under lock (shared)", Run: c03r1},
 			{ID: "C14-R2", Doc: "manager-owned fields have a single writer (shared)", Run: c14r2},
 		},
